@@ -514,8 +514,8 @@ class CaseGen:
         date_kinds = ["date"] * len(lists)
         variant = "plain"
         if kind != "err":
-            variant = r.choices(["plain", "meta-order", "date-kinds", "flatten-alike", "zeros", "nested-period"],
-                                weights=[40, 18, 18, 9, 8, 7])[0]
+            variant = r.choices(["plain", "meta-order", "date-kinds", "flatten-alike", "zeros", "nested-period", "hash-collide"],
+                                weights=[36, 16, 16, 8, 8, 6, 10])[0]
             if variant == "meta-order":
                 # A: EQUAL metadata written differently in the blended triangles (and, half of the time, inside one slice):
                 # detail keys inserted in another order, 7 vs 7.0, True vs 1.  The same coordinates for blend.
@@ -531,6 +531,21 @@ class CaseGen:
                     if c.metadata not in seen:
                         seen.append(c.metadata)
                 lists = [[c.replace(metadata=specials[seen.index(c.metadata) % len(specials)]) for c in L] for L in lists]
+            elif variant == "hash-collide":
+                # M: sibling slices that differ ONLY by a hash-colliding value (-1 / -2) in a detail, loss detail or limit
+                pair = r.choice(hash_colliding_metas())
+                if r.random() < 0.5:
+                    pair = pair[::-1]
+                seen = []
+                for c in lists[0]:
+                    if c.metadata not in seen:
+                        seen.append(c.metadata)
+                if len(seen) == 1:      # one slice: clone it into the sibling slice (values shifted by one)
+                    lists = [[c.replace(metadata=pair[0]) for c in L]
+                             + [c.replace(metadata=pair[1], values={k: v + 1 for k, v in c.values.items()}) for c in L] for L in lists]
+                else:
+                    lists = [[c.replace(metadata=pair[seen.index(c.metadata)]) if seen.index(c.metadata) < 2 else c for c in L]
+                             for L in lists]
             elif variant == "zeros":
                 # E: falsy values: one field all zeros (0 / 0.0 / zero arrays) in every triangle
                 f0 = r.choice(list(lists[0][0].values))
@@ -604,6 +619,16 @@ def respell_meta(c, j, i=0, intra=False):
     if lim is not None and float(lim) == int(lim):
         kw["per_occurrence_limit"] = int(lim) if odd else float(lim)
     return c.replace(metadata=c.metadata.__class__(**kw))
+
+
+def hash_colliding_metas():
+    """M: DISTINCT metadata whose only difference is a value with a colliding CPython hash (hash(-1) == hash(-2))"""
+    from bermuda import Metadata
+
+    return [[Metadata(details={"development_offset": -1}), Metadata(details={"development_offset": -2})],
+            [Metadata(loss_details={"shift": -1.0}), Metadata(loss_details={"shift": -2.0})],
+            [Metadata(per_occurrence_limit=-1), Metadata(per_occurrence_limit=-2)],
+            [Metadata(details={"k": -2, "j": "x"}), Metadata(details={"j": "x", "k": -1})]]
 
 
 def flatten_alike_metas():
